@@ -424,6 +424,10 @@ pub trait MaybeTagged: Sized {
     fn tag() -> Option<u64> {
         None
     }
+    /// The type's `Default` value where it has one (destination for `clone_from`).
+    fn fresh() -> Option<Self> {
+        None
+    }
 }
 macro_rules! tagged {
     ($($t:ty),*) => {$(
@@ -431,14 +435,18 @@ macro_rules! tagged {
             fn from_tagged(b: &[u8]) -> Option<coset::Result<Self>> { Some(<$t>::from_tagged_slice(b)) }
             fn tagged_vec(self) -> Option<coset::Result<Vec<u8>>> { Some(self.to_tagged_vec()) }
             fn tag() -> Option<u64> { Some(<$t as TaggedCborSerializable>::TAG) }
+            fn fresh() -> Option<Self> { Some(Default::default()) }
         }
     )*};
 }
 macro_rules! untagged {
     ($($t:ty),*) => {$( impl MaybeTagged for $t {} )*};
 }
+macro_rules! untagged_default {
+    ($($t:ty),*) => {$( impl MaybeTagged for $t { fn fresh() -> Option<Self> { Some(Default::default()) } } )*};
+}
 tagged!(coset::CoseSign, coset::CoseSign1, coset::CoseMac, coset::CoseMac0, coset::CoseEncrypt, coset::CoseEncrypt0);
-untagged!(
+untagged_default!(
     coset::Header,
     coset::ProtectedHeader,
     coset::CoseSignature,
@@ -448,10 +456,9 @@ untagged!(
     coset::cwt::ClaimsSet,
     coset::PartyInfo,
     coset::SuppPubInfo,
-    coset::CoseKdfContext,
-    coset::Label,
-    Ts
+    coset::CoseKdfContext
 );
+untagged!(coset::Label, Ts);
 impl<T: EnumI64> MaybeTagged for coset::RegisteredLabel<T> {}
 impl<T: EnumI64 + WithPrivateRange> MaybeTagged for coset::RegisteredLabelWithPrivate<T> {}
 
@@ -460,7 +467,8 @@ pub trait Subj: Any {
     fn to_vec(&self) -> Outcome<Vec<u8>>;
     fn to_tagged_vec(&self) -> Option<Outcome<Vec<u8>>>;
     fn to_value(&self) -> Outcome<Value>;
-    /// clone, compare with ==, drop the clone: all must not panic; returns clone == self
+    /// clone (and clone_from into a Default value), compare with ==, Debug and encoding, drop the
+    /// copies: nothing may panic; returns whether every copy is indistinguishable from self
     fn clone_eq(&self) -> Result<bool, String>;
     fn as_any(&self) -> &dyn Any;
 }
@@ -487,8 +495,15 @@ where
     fn clone_eq(&self) -> Result<bool, String> {
         catch(|| {
             let c = self.0.clone();
-            let r = c == self.0;
+            let mut r = c == self.0;
             drop(c);
+            // `clone_from` into a fresh (built, not decoded) destination is a copy as well
+            if let Some(mut d) = T::fresh() {
+                d.clone_from(&self.0);
+                r &= d == self.0
+                    && format!("{:?}", d) == format!("{:?}", self.0)
+                    && d.to_vec().ok() == self.0.clone().to_vec().ok();
+            }
             r
         })
     }
